@@ -11,9 +11,12 @@
     * enums whose `FromStr` matches a name table ignoring ASCII case (Dialect with aliases,
       SpillCompression with the alias "", MapKeyDedupPolicy, ExplainFormat, MetricType (trims),
       DFParquetWriterVersion, ConfigDurationFormat) and whose `Display` is the canonical name;
-    * `impl ConfigField for Option<F>`: `get_or_insert_with(Default::default).set(..)` — so a failed
-      `set` on a `None` option leaves `Some(default)`; `Option<MaxRowGroupBytes>` has its own impl
-      without that effect;
+    * `impl ConfigField for Option<F>`: `get_or_insert_with(Default::default).set(..)`; in the pinned
+      upstream code a failed `set` on a `None` option therefore left `Some(default)`; /repo commit
+      32d6403 ("fix: keep an unset optional config value unset when setting it fails") restores
+      `None` in that case.  `set true` is the repaired code (what /repo contains now), `set false`
+      the upstream code (kept only for the witness).  `Option<MaxRowGroupBytes>` has its own impl
+      that never had the effect;
     * `ConfigOptions::set`'s special case `datafusion.optimizer.enable_dynamic_filter_pushdown`:
       strict `str::parse::<bool>` (no lower-casing) and the value is written to four options.
   Decimal rendering (`Display` for integers) is `showNat` / `showInt`.
@@ -215,15 +218,19 @@ def assign (cfg : Config) (keys : List Nat) (v : Val) : Config :=
   cfg.map fun e => if keys.contains e.key then { e with val := v } else e
 
 /-- `ConfigOptions::set(key, text)`: new configuration and whether the call returned `Ok`.
-    A failed `set` on an `Option<F>` field that is `None` leaves `Some(F::default())` behind
-    (`get_or_insert_with(Default::default)` runs before the inner `set` fails). -/
-def set (cfg : Config) (key : Nat) (text : List Char) : Config × Bool :=
+    `repaired = true`: the code after /repo 32d6403 — a failed `set` leaves everything as it was
+    (`if result.is_err() && was_none { *self = None }`).
+    `repaired = false`: the pinned upstream code — a failed `set` on an `Option<F>` field that is
+    `None` leaves `Some(F::default())` behind (`get_or_insert_with(Default::default)` ran before
+    the inner `set` failed). -/
+def set (repaired : Bool) (cfg : Config) (key : Nat) (text : List Char) : Config × Bool :=
   match cfg.find? (fun e => e.key == key) with
   | none => (cfg, false)
   | some e =>
     match parse e.kind text with
     | some v => (assign cfg (key :: e.fanout) v, true)
     | none =>
+      if repaired then (cfg, false) else
       match e.kind, e.val with
       | .opt k, .none => (assign cfg [key] (defaultOf k), false)
       | _, _ => (cfg, false)
